@@ -6,12 +6,13 @@ ID = "C17"
 ML = "mC17"
 HARNESS = "harness/C17.c"
 SRCS = None
-EXTRA_LD = ["-Wl,--wrap=ppoll", "-Wl,--wrap=gettimeofday"]
+EXTRA_LD = ["-Wl,--wrap=ppoll", "-Wl,--wrap=gettimeofday", "-Wl,--wrap=read"]
 LEVEL = "proof"
 CASE_TIMEOUT = 0.02
 RULE = ("case = callback table + script over the real toplevel instance (default event loop, mock terminal) under a "
         "virtual clock: register timers (deadline past / now / future relative to the clock, microseconds), deferred "
-        "callbacks, IO / signal / process watches, cancel, from the program and from inside callbacks; NOHANG ticks after "
+        "callbacks, IO / signal / process watches, cancel, from the program and from inside callbacks, and cancels whose "
+        "UNBIND notification itself registers replacement watches (ub tables: re-entrancy of tickit_watch_cancel); NOHANG ticks after "
         "a clock advance and sleeping ticks; destruction at the end.  Observation = every callback invocation "
         "(id, kind, event flags, iteration, clock, deadline) and every ppoll time-out.  Exhaustive part: all scripts of "
         "two or three registrations from a 16-letter alphabet with one callback of <= 2 actions from a 10-letter "
@@ -49,6 +50,28 @@ def gen(tier, seed, info):
                         continue
                     n += 1
                     yield "cb1=%s %s %s %s %s" % (",".join(sc) or "-", a, b, c, tails[0])
+    # ---- cancel whose UNBIND notification registers a replacement (re-entrancy of tickit_watch_cancel)
+    nub = 0
+    repl = ["t-500:0:0", "t0:0:0", "t500:0:0", "t1500:2:0", "t2500:0:0", "t3500:0:0", "l0:0", "l1:0", "l3:0", "wi0:1:4:0",
+            "t1500:0:0,t1600:0:0", "l1:0,t1500:0:0"]
+    victims = [("t2000:2:1", "timer"), ("t2000:6:1", "timer"), ("l2:1", "later"), ("l3:1", "later-first"), ("wi1:1:2:1", "io"),
+               ("ws10:2:1", "sig"), ("wp2:1", "proc")]
+    before = ["", "t1000:0:0", "t1000:0:0 t3000:0:0", "l0:0", "t2000:0:0", "l0:0 t1000:0:0"]
+    for rp in repl:
+        for (v, _) in victims:
+            for bf in before:
+                nb = len(bf.split())
+                for after in ("", "t3000:0:0", "l0:0"):
+                    for how in ("top", "cb"):
+                        nub += 1
+                        if how == "top":
+                            # the program cancels the victim
+                            yield "ub1=%s %s %s %s c%d r0 r1200 r1000 r1000 r1000" % (rp, bf, v, after, nb)
+                        else:
+                            # a deferred callback (cb2) cancels the victim during an iteration
+                            yield "ub1=%s cb2=c%d %s %s %s l0:2 r0 r1200 r1000 r1000 r1000" % (rp, nb, bf, v, after)
+    n += nub
+    info["unbind_reentrancy_cases"] = nub
     info["exhaustive"] = True
     info["exhaustive_scope"] = ("registrations a,b from %d letters x optional third from %d x callback script of <= 2 actions "
                                 "from %d letters x ticks 'r0 r0 r2000 o' (quick: thinned when a third registration is present)"
@@ -99,6 +122,19 @@ def gen(tier, seed, info):
             else:
                 acts = [act(ncb, k, maxid, False) for _ in range(rnd.randint(1, 3))]
             toks.append("cb%d=%s" % (k, ",".join(acts)))
+            if rnd.random() < 0.35:
+                # what the callback registers when it is told of its cancellation
+                regs = []
+                for _ in range(rnd.randint(1, 2)):
+                    rr = rnd.random()
+                    tgt = rnd.randrange(k + 1, ncb + 1)
+                    if rr < 0.6:
+                        regs.append("t%d:%d:%d" % (rnd.choice(DELTAS), fl(), tgt))
+                    elif rr < 0.9:
+                        regs.append("l%d:%d" % (fl(), tgt))
+                    else:
+                        regs.append("wi%d:1:%d:0" % (rnd.randrange(4), fl()))
+                toks.append("ub%d=%s" % (k, ",".join(regs)))
         nops = rnd.randint(3, 8 if kind != "hostile" else 12)
         for _ in range(nops):
             r = rnd.random()
@@ -133,9 +169,9 @@ def classify(case, obs):
     if not any(e[2] & 1 for e in ev):
         return None
     toks = case.split()
-    cbs = [t for t in toks if t.startswith("cb")]
+    cbs = [t for t in toks if t.startswith("cb") or t.startswith("ub")]
     nested = tuple(sorted(set(a[0] + ("<" if a[0] == "t" and a[1] == "-" else "") for t in cbs for a in t.split("=", 1)[1].split(",") if a)))
-    ops = tuple(sorted(set(t[0] for t in toks if not t.startswith("cb"))))
+    ops = tuple(sorted(set(t[0] for t in toks if not t.startswith("cb") and not t.startswith("ub")))) + (("ub",) if any(t.startswith("ub") for t in toks) else ())
     fired_by_kind = tuple(sorted(set((e[1], e[2]) for e in ev)))
     same_iter = max((sum(1 for e in ev if e[3] == it and e[2] & 1) for it in set(e[3] for e in ev)), default=0)
     return (ops, nested, fired_by_kind, min(same_iter, 4))
@@ -146,7 +182,7 @@ def shrink(case):
     for i in range(len(toks)):
         yield " ".join(toks[:i] + toks[i + 1:])
     for i, t in enumerate(toks):
-        if t.startswith("cb") and "," in t:
+        if (t.startswith("cb") or t.startswith("ub")) and "," in t:
             head, acts = t.split("=", 1)
             al = acts.split(",")
             for j in range(len(al)):
